@@ -347,167 +347,313 @@ def setter_info(cls, key):
 
 
 # --------------------------------------------------------------------------
-# element routes: attribute-style setters / getters and the set/get/unset methods of the element classes
+# element routes: the attribute-style interface (python `property` objects) and the set / get / unset methods of every
+# element class of fim.user, enumerated by introspection (so inheritance and overrides are what python resolves) and
+# classified by *behavioural probes* on a stub instance whose set_property / set_properties / unset_property /
+# get_property (and graph model) only record what they are called with.  No source text is matched: any rewrite that
+# routes the same calls yields the same table; a rewrite that changes what reaches the store changes the table, and the
+# theorems over it (`Proofs/C02.lean`, `routes_ok`) are re-checked.
 
-ELEMENT_FILES = [("ModelElement", "fim/user/model_element.py"), ("Node", "fim/user/node.py"), ("Component", "fim/user/component.py"),
-                 ("Interface", "fim/user/interface.py"), ("NetworkService", "fim/user/network_service.py"), ("Link", "fim/user/link.py")]
-ELEMENT_KIND = {"Node": ("node", "NodeSliver", "node_sliver"), "Component": ("component", "ComponentSliver", "component_sliver"),
-                "Interface": ("interface", "InterfaceSliver", "interface_sliver"),
-                "NetworkService": ("service", "NetworkServiceSliver", "network_service_sliver"),
-                "Link": ("link", "NetworkLinkSliver", "link_sliver")}
-TOPO = "self.__dict__.get('topo', None) is not None"
-ROUTE_METHODS = {"set_property", "set_properties", "unset_property", "update_labels", "update_capacities"}
-
-
-def _norm_body(fn):
-    return "\n".join(ast.unparse(st) for st in strip_doc(fn.body))
+SLIVER_FAMILY = {"node_sliver": "node", "component_sliver": "component", "network_service_sliver": "service",
+                 "interface_sliver": "interface", "link_sliver": "link"}
+PROBE_TEXT = '{"probe": [1, "x"]}'          # a str that is also a JSON text: every setter accepts it
 
 
-def _setter_form(fn, attr):
-    """-> (form, prop, cls)   forms whose None argument reaches set_property(prop, None), i.e. unset"""
-    if len(fn.args.args) != 2:
-        raise ExtractionError("attribute setter %s: signature" % attr)
-    v = fn.args.args[1].arg
-    body = _norm_body(fn)
-    m = None
-    import re
-    m = re.fullmatch(r"if %s:\n    self\.set_property\('(\w+)', %s\)" % (re.escape(TOPO), v), body)
-    if m:
-        return "direct", m.group(1), ""
-    m = re.fullmatch(r"self\._name = %s\nif %s:\n    self\.set_property\('(\w+)', %s\)" % (v, re.escape(TOPO), v), body)
-    if m:
-        return "nameField", m.group(1), ""
-    m = re.fullmatch(r"if %s:\n    if %s is None or isinstance\(%s, (\w+)\):\n        self\.set_property\('(\w+)', %s\)\n    else:\n"
-                     r"        self\.set_property\('(\w+)', (\w+)\(%s\)\)" % (re.escape(TOPO), v, v, v, v), body)
-    if m and m.group(2) == m.group(3) and m.group(1) == m.group(4):
-        return "jsonWrap", m.group(2), m.group(1)
-    m = re.fullmatch(r"if %s:\n    imtype = self\.get_property\('image_type'\)\n    self\.set_properties\(image_ref=%s, image_type=imtype\)"
-                     % (re.escape(TOPO), v), body)
-    if m:
-        return "imagePair", "image_ref", ""
-    raise ExtractionError("attribute setter `%s` has an unrecognised body (does None still reach set_property(name, None)?):\n%s" % (attr, body))
+class _Sentinel:
+    """what the stub's get_property returns"""
+    def __init__(self):
+        self.data = object()
 
 
-def _getter_form(fn):
-    body = _norm_body(fn)
-    import re
-    m = re.fullmatch(r"return self\.get_property\('(\w+)'\) if %s else None" % re.escape(TOPO), body)
-    if m:
-        return "plain", m.group(1)
-    m = re.fullmatch(r"d = self\.get_property\('(\w+)'\) if %s else None\nreturn d\.data if d is not None else None" % re.escape(TOPO), body)
-    if m:
-        return "dataOf", m.group(1)
-    if body == "return self._name":
-        return "cached", "name"
-    return None
+def element_classes():
+    """every concrete subclass of ModelElement defined in a module of the fim.user package, in a stable order"""
+    import importlib
+    import pkgutil
+    import fim.user as fu
+    from fim.user.model_element import ModelElement
+    found = {}
+    for mi in sorted(pkgutil.iter_modules(fu.__path__), key=lambda m: m.name):
+        m = importlib.import_module("fim.user." + mi.name)
+        for name, c in sorted(vars(m).items()):
+            if inspect.isclass(c) and issubclass(c, ModelElement) and c is not ModelElement and c.__module__ == m.__name__ \
+                    and not inspect.isabstract(c):
+                found[name] = c
+    if not found:
+        raise ExtractionError("no element classes found in fim.user")
+    # parents before children, then by name
+    return sorted(found.values(), key=lambda c: (len(c.__mro__), c.__name__))
 
 
-def _is_decorated(fn, what):
-    for d in fn.decorator_list:
-        if ast.unparse(d) == what:
-            return True
-    return False
+def _stub(cls, with_topo=True, record=True):
+    """an instance of `cls` made without its constructor; its set/get/unset methods record instead of acting"""
+    from unittest import mock
+    calls = []
+    got = {}
+
+    def rec_get(pname):
+        calls.append(("get_property", pname))
+        return got.setdefault(pname, _Sentinel())
+
+    ns = {}
+    if record:
+        ns = {"set_property": lambda self, pname, pval: calls.append(("set_property", pname, pval)),
+              "set_properties": lambda self, **kw: calls.append(("set_properties", dict(kw))),
+              "unset_property": lambda self, pname: calls.append(("unset_property", pname)),
+              "get_property": lambda self, pname: rec_get(pname)}
+    sub = type("Probe" + cls.__name__, (cls,), ns)
+    o = object.__new__(sub)
+    o.__dict__["_name"] = "probe-name"
+    o.__dict__["node_id"] = "probe-id"
+    o.__dict__["_interfaces"] = []
+    if with_topo:
+        topo = mock.MagicMock()
+        topo.graph_model.get_node_properties.return_value = (["probe-class"], {"probe": "props"})
+        topo.graph_model.map_sliver_property_to_graph.side_effect = lambda p: {"details": "Details"}.get(p)
+        o.__dict__["topo"] = topo
+    return o, calls, got
 
 
-def element_routes():
-    """{class: {"props": [(attr, prop, getter form, setter form, cls)], "methods": [...]}} from the AST of fim/user/*.py"""
-    out = {}
-    for clsname, rel in ELEMENT_FILES:
-        tree, src = parse(rel)
-        cls = find_class(tree, clsname)
-        getters, setters, methods = {}, {}, {}
-        for n in cls.body:
-            if not isinstance(n, ast.FunctionDef):
-                continue
-            if _is_decorated(n, "property"):
-                getters[n.name] = n
-            elif any(ast.unparse(d).endswith(".setter") for d in n.decorator_list):
-                setters[n.name] = n
-            elif n.name.startswith(("set_", "update_", "unset_")):
-                methods[n.name] = n
-        extra = set(methods) - ROUTE_METHODS
-        if extra:
-            raise ExtractionError("%s has setter-like methods the element model does not know: %s" % (clsname, sorted(extra)))
-        props = []
-        for attr in sorted(set(getters) | set(setters)):
-            gf = _getter_form(getters[attr]) if attr in getters else None
-            if attr in setters:
-                form, prop, c = _setter_form(setters[attr], attr)
-                if gf is None:
-                    raise ExtractionError("%s.%s has a setter but its getter is not a plain property read" % (clsname, attr))
-                if gf[1] != prop and form != "imagePair":
-                    raise ExtractionError("%s.%s reads %s but writes %s" % (clsname, attr, gf[1], prop))
-                props.append((attr, prop, gf[0], form, c))
-            elif gf is not None:
-                props.append((attr, gf[1], gf[0], "readOnly", ""))
-        out[clsname] = {"props": props, "methods": methods, "src": src, "node": cls}
-    # method idioms the hand-written model mirrors: pin their normalised text
-    me = out["ModelElement"]["methods"]
-    want_unset = ("assert pname is not None\nprop_name = self.topo.graph_model.map_sliver_property_to_graph(pname)\n"
-                  "if prop_name is not None:\n    self.topo.graph_model.unset_node_property(node_id=self.node_id, prop_name=prop_name)")
-    if _norm_body(me["unset_property"]) != want_unset:
-        raise ExtractionError("ModelElement.unset_property changed:\n" + _norm_body(me["unset_property"]))
-    for what, cl in (("labels", "Labels"), ("capacities", "Capacities")):
-        want = ("if self.%s is None:\n    self.set_property('%s', %s(**kwargs))\nelse:\n    new_%s = %s.update(self.%s, **kwargs)\n"
-                "    self.set_property('%s', new_%s)" % (what, what, cl, what[:3], cl, what, what, what[:3]))
-        if _norm_body(me["update_" + what]) != want:
-            raise ExtractionError("ModelElement.update_%s changed:\n%s" % (what, _norm_body(me["update_" + what])))
-    for clsname, (kind, slcls, fam) in ELEMENT_KIND.items():
-        ms = out[clsname]["methods"]
-        import re
-        sp = _norm_body(ms["set_property"])
-        m = re.fullmatch(r"if pval is None:\n    self\.unset_property\(pname\)\n    return\n(\w+) = %s\(\)\n\1\.set_property\(prop_name=pname, prop_val=pval\)\n"
-                         r"prop_dict = self\.topo\.graph_model\.%s_to_graph_properties_dict\(\1\)\n"
-                         r"self\.topo\.graph_model\.update_node_properties\(node_id=self\.node_id, props=prop_dict\)" % (slcls, fam), sp)
-        if not m:
-            raise ExtractionError("%s.set_property changed (None -> unset_property, fresh sliver, to-graph, update):\n%s" % (clsname, sp))
-        sps = _norm_body(ms["set_properties"])
-        m = re.fullmatch(r"(\w+) = %s\(\)\n\1\.set_properties\(\*\*kwargs\)\nprop_dict = self\.topo\.graph_model\.%s_to_graph_properties_dict\(\1\)\n"
-                         r"self\.topo\.graph_model\.update_node_properties\(node_id=self\.node_id, props=prop_dict\)" % (slcls, fam), sps)
-        if not m:
-            raise ExtractionError("%s.set_properties changed:\n%s" % (clsname, sps))
-        gp = [n for n in out[clsname]["node"].body if isinstance(n, ast.FunctionDef) and n.name == "get_property"]
-        if len(gp) != 1:
-            raise ExtractionError("%s.get_property missing" % clsname)
-        g = _norm_body(gp[0])
-        m = re.fullmatch(r"(?:assert pname is not None\n)?_, node_properties = self\.topo\.graph_model\.get_node_properties\(node_id=self\.node_id\)\n"
-                         r"(\w+) = self\.topo\.graph_model\.%s_from_graph_properties_dict\(node_properties\)\nreturn \1\.get_property\(pname\)" % fam, g)
-        if not m:
-            raise ExtractionError("%s.get_property changed:\n%s" % (clsname, g))
+def _gm_calls(o):
+    return [(c[0], c[1], c[2]) for c in o.topo.graph_model.method_calls]
+
+
+def _probe_methods(cls):
+    """-> (kind, setNoneUnsets).  The four methods must have the shape the hand-written model mirrors
+    (`Model/Sliver.lean`: setProperty / setProperties1 / getProperty / unsetProperty); what `set_property(p, None)` does is data."""
+    import fim.slivers.base_sliver as bs
+    name = cls.__name__
+    # set_property(p, v): fresh sliver of the kind's class with p set -> <family>_to_graph_properties_dict -> update_node_properties
+    o, calls, _ = _stub(cls, record=False)
+    o.topo.graph_model.node_sliver_to_graph_properties_dict.return_value = {"Details": "x"}
+    for fam in SLIVER_FAMILY:
+        getattr(o.topo.graph_model, fam + "_to_graph_properties_dict").return_value = {"Details": "x"}
+    try:
+        cls.set_property(o, "details", "probe-details")
+    except Exception as e:
+        raise ExtractionError("%s.set_property('details', str) raises on the probe: %s: %s" % (name, type(e).__name__, e))
+    gm = _gm_calls(o)
+    if len(gm) != 2 or not gm[0][0].endswith("_to_graph_properties_dict") or gm[1][0] != "update_node_properties":
+        raise ExtractionError("%s.set_property no longer is `to-graph dictionary of a fresh sliver, then update_node_properties`: %s" % (
+            name, [g[0] for g in gm]))
+    fam = gm[0][0][:-len("_to_graph_properties_dict")]
+    if fam not in SLIVER_FAMILY:
+        raise ExtractionError("%s.set_property writes through an unknown mapping function %s" % (name, gm[0][0]))
+    kind = SLIVER_FAMILY[fam]
+    sl = gm[0][1][0] if gm[0][1] else None
+    if not isinstance(sl, bs.BaseSliver) or sl.get_property("details") != "probe-details" or sl.get_property("name") is not None:
+        raise ExtractionError("%s.set_property does not hand a fresh sliver with just the property set to %s" % (name, gm[0][0]))
+    if gm[1][2] != {"node_id": "probe-id", "props": {"Details": "x"}}:
+        raise ExtractionError("%s.set_property does not update its own node with the mapped dictionary" % name)
+    sliver_cls = type(sl)
+    # set_properties(**kw): the same with all keywords on one fresh sliver
+    o, calls, _ = _stub(cls, record=False)
+    getattr(o.topo.graph_model, fam + "_to_graph_properties_dict").return_value = {"Details": "y"}
+    cls.set_properties(o, details="probe-details", name="probe-n2")
+    gm = _gm_calls(o)
+    if [g[0] for g in gm] != [fam + "_to_graph_properties_dict", "update_node_properties"] or type(gm[0][1][0]) is not sliver_cls \
+            or gm[0][1][0].get_property("details") != "probe-details" or gm[0][1][0].get_property("name") != "probe-n2" \
+            or gm[1][2] != {"node_id": "probe-id", "props": {"Details": "y"}}:
+        raise ExtractionError("%s.set_properties no longer is `fresh sliver.set_properties(**kw), to-graph, update_node_properties`" % name)
+    # get_property(p): get_node_properties -> <family>_from_graph_properties_dict -> sliver.get_property(p)
+    o, calls, _ = _stub(cls, record=False)
+    back = getattr(o.topo.graph_model, fam + "_from_graph_properties_dict")
+    back.return_value.get_property.return_value = "probe-result"
+    r = cls.get_property(o, "details")
+    gm = _gm_calls(o)
+    if r != "probe-result" or [g[0] for g in gm[:2]] != ["get_node_properties", fam + "_from_graph_properties_dict"] \
+            or gm[0][2] != {"node_id": "probe-id"} or gm[1][1] != ({"probe": "props"},):
+        raise ExtractionError("%s.get_property no longer is `from-graph sliver of the node's properties .get_property(p)`" % name)
+    # unset_property(p): mapped name -> unset_node_property, unmapped -> nothing
+    o, calls, _ = _stub(cls, record=False)
+    cls.unset_property(o, "details")
+    gm = _gm_calls(o)
+    if [g[0] for g in gm] != ["map_sliver_property_to_graph", "unset_node_property"] or \
+            gm[1][2] != {"node_id": "probe-id", "prop_name": "Details"}:
+        raise ExtractionError("%s.unset_property no longer unsets the mapped graph property of its own node" % name)
+    o, calls, _ = _stub(cls, record=False)
+    cls.unset_property(o, "no-such-property")
+    if [g[0] for g in _gm_calls(o)] != ["map_sliver_property_to_graph"]:
+        raise ExtractionError("%s.unset_property of an unmapped name no longer is a silent no-op" % name)
+    # set_property(p, None): data
+    o, calls, _ = _stub(cls, record=False)
+    seen = []
+    o.__dict__["unset_property"] = lambda pname: seen.append(pname)
+    try:
+        cls.set_property(o, "details", None)
+        none_unsets = seen == ["details"] and not _gm_calls(o)
+    except Exception:
+        none_unsets = False
+    return kind, none_unsets
+
+
+def _probe_attr(cls, attr, prop):
+    """-> dict(attr, prop, get, onValue, onNone, cls, partner, guarded) | None for a view (no property read)"""
+    import fim.slivers.json_data as jd
+    # getter
+    o, calls, got = _stub(cls)
+    try:
+        r = prop.fget(o)
+        raised = False
+    except Exception:
+        raised = True
+        r = None
+    if not raised and len(calls) == 1 and calls[0][0] == "get_property":
+        p = calls[0][1]
+        get = "plain" if r is got[p] else ("dataOf" if r is got[p].data else None)
+        if get is None:
+            raise ExtractionError("%s.%s reads get_property(%s) but returns something else" % (cls.__name__, attr, p))
+    elif not raised and not calls and r == "probe-name":
+        p, get = "name", "cached"
+    else:
+        if prop.fset is not None:
+            raise ExtractionError("%s.%s has a setter but its getter is not a property read" % (cls.__name__, attr))
+        return None
+    if get != "cached":
+        # without a topology the getter answers None and touches nothing
+        o2, calls2, _ = _stub(cls, with_topo=False)
+        if prop.fget(o2) is not None or calls2:
+            raise ExtractionError("%s.%s reads the graph of an element that has no topology yet" % (cls.__name__, attr))
+    out = {"attr": attr, "prop": p, "get": get, "onValue": "none", "onNone": "none", "cls": "", "partner": "", "cacheAfterWrite": True}
+    if prop.fset is None:
+        return out
+    # setter, value
+    o, calls, got = _stub(cls)
+    prop.fset(o, PROBE_TEXT)
+    if get == "cached" and o.__dict__["_name"] != PROBE_TEXT:
+        raise ExtractionError("%s.%s setter does not cache the name" % (cls.__name__, attr))
+    if len(calls) == 1 and calls[0][0] == "set_property" and calls[0][1] == p:
+        v = calls[0][2]
+        if v is PROBE_TEXT:
+            out["onValue"] = "direct"
+        elif isinstance(v, jd.JSONData) and v.json == PROBE_TEXT:
+            out["onValue"], out["cls"] = "jsonWrap", type(v).__name__
+            # a ready object of that class is passed on as it is; a python object is wrapped as well
+            o3, calls3, _ = _stub(cls)
+            inst = type(v)('{"inst": true}')
+            prop.fset(o3, inst)
+            o4, calls4, _ = _stub(cls)
+            prop.fset(o4, {"raw": [0, False, ""]})
+            if calls3 != [("set_property", p, inst)] or len(calls4) != 1 or type(calls4[0][2]) is not type(v) or \
+                    calls4[0][2].data != {"raw": [0, False, ""]}:
+                raise ExtractionError("%s.%s no longer wraps a python object / passes a %s on" % (cls.__name__, attr, type(v).__name__))
+        else:
+            raise ExtractionError("%s.%s = v hands set_property a transformed value %r" % (cls.__name__, attr, v))
+    elif len(calls) == 2 and calls[0][0] == "get_property" and calls[1][0] == "set_properties" and \
+            set(calls[1][1]) == {p, calls[0][1]} and calls[1][1][p] is PROBE_TEXT and calls[1][1][calls[0][1]] is got[calls[0][1]]:
+        out["onValue"], out["partner"] = "pair", calls[0][1]
+    else:
+        raise ExtractionError("%s.%s = v reaches the store in an unrecognised way: %s" % (cls.__name__, attr, [c[:2] for c in calls]))
+    # setter, None
+    o, calls, got = _stub(cls)
+    try:
+        prop.fset(o, None)
+    except Exception as e:
+        raise ExtractionError("%s.%s = None raises before reaching the store: %s" % (cls.__name__, attr, type(e).__name__))
+    if calls == [("set_property", p, None)]:
+        out["onNone"] = "passNone"
+    elif calls == [("unset_property", p)]:
+        out["onNone"] = "unsets"
+    elif len(calls) == 1 and calls[0][0] == "set_property" and calls[0][1] == p and calls[0][2] is not None:
+        out["onNone"] = "wraps"
+        if not out["cls"]:
+            out["cls"] = type(calls[0][2]).__name__
+    elif len(calls) == 2 and calls[0][0] == "get_property" and calls[1][0] == "set_properties" and \
+            calls[1][1].get(p, 0) is None and set(calls[1][1]) == {p, calls[0][1]}:
+        out["onNone"] = "pairNone"
+        out["partner"] = calls[0][1]
+    elif not calls:
+        out["onNone"] = "ignores"
+    else:
+        raise ExtractionError("%s.%s = None reaches the store in an unrecognised way: %s" % (cls.__name__, attr, [c[:2] for c in calls]))
+    # without a topology the setter touches nothing
+    o2, calls2, _ = _stub(cls, with_topo=False)
+    prop.fset(o2, PROBE_TEXT)
+    if calls2:
+        raise ExtractionError("%s.%s = v writes to the graph of an element that has no topology yet" % (cls.__name__, attr))
+    if get == "cached":
+        # is the cached name updated only after the store accepted the value?
+        o5, _, _ = _stub(cls)
+
+        def boom(pname, pval):
+            raise RuntimeError("probe")
+        o5.__dict__["set_property"] = boom
+        try:
+            prop.fset(o5, "probe-other")
+        except RuntimeError:
+            pass
+        out["cacheAfterWrite"] = o5.__dict__["_name"] == "probe-name"
     return out
 
 
-def routes_lean(routes):
-    body = """/-- how an attribute-style setter `el.<attr> = v` reaches the store -/
-inductive RouteForm | direct | jsonWrap | imagePair | nameField | readOnly
-  deriving DecidableEq, Repr, Inhabited
+def element_routes():
+    """[{name, kind, setNoneUnsets, routes: [...], views: [...]}] for every element class"""
+    out = []
+    for cls in element_classes():
+        kind, none_unsets = _probe_methods(cls)
+        routes, views = [], []
+        for attr, prop in sorted(inspect.getmembers(cls, lambda x: isinstance(x, property))):
+            r = _probe_attr(cls, attr, prop)
+            if r is None:
+                views.append(attr)
+            else:
+                routes.append(r)
+        # setter-like methods the element model does not know about would be another route to the store
+        known = {"set_property", "set_properties", "unset_property", "update_labels", "update_capacities"}
+        extra = sorted(n for n, m in inspect.getmembers(cls, inspect.isfunction)
+                       if n.startswith(("set_", "unset_", "update_")) and n not in known)
+        if extra:
+            raise ExtractionError("%s has setter-like methods the element model does not know: %s" % (cls.__name__, extra))
+        out.append({"name": cls.__name__, "kind": kind, "setNoneUnsets": none_unsets, "routes": routes, "views": views})
+    return out
+
+
+def routes_lean(classes):
+    body = """/-- what the getter of an attribute returns: `get_property(prop)`, its `.data`, or the cached `_name` -/
 inductive GetForm | plain | dataOf | cached
   deriving DecidableEq, Repr, Inhabited
+/-- how `el.<attr> = v` (v not None) reaches the store: no setter; `set_property(prop, v)`; `set_property(prop, cls(v))` unless
+v already is a `cls`; `set_properties(prop=v, partner=get_property(partner))` -/
+inductive OnValue | none | direct | jsonWrap | pair
+  deriving DecidableEq, Repr, Inhabited
+/-- what `el.<attr> = None` does: no setter; `set_property(prop, None)`; `unset_property(prop)`; `set_property(prop, <an object
+made from None>)`; `set_properties(prop=None, partner=...)`; nothing -/
+inductive OnNone | none | passNone | unsets | wraps | pairNone | ignores
+  deriving DecidableEq, Repr, Inhabited
 
-/-- one attribute (python `property`) of an element class: `get` reads `get_property(prop)` (or its `.data`), the
-setter calls `set_property(prop, v)` (`direct`; `jsonWrap`: wraps a non-object in class `cls`; both pass None on, which
-unsets), or pairs `image_ref` with the stored image type (`imagePair`) -/
+/-- one python `property` of an element class that reads a sliver property (probed on a recording stub) -/
 structure AttrRoute where
   attr : String
   prop : String
   get : GetForm
-  form : RouteForm
+  onValue : OnValue
+  onNone : OnNone
+  /-- wrapper class of `jsonWrap` / `wraps` -/
   cls : String
+  /-- the other key of a `pair` route -/
+  partner : String
+  /-- (`cached` only) the cached name changes only after the store accepted the new one -/
+  cacheAfterWrite : Bool
+  deriving DecidableEq, Repr, Inhabited
+
+/-- an element class: its sliver kind, whether `set_property(p, None)` is `unset_property(p)`, its attribute routes -/
+structure ElemClass where
+  name : String
+  kind : String
+  setNoneUnsets : Bool
+  routes : List AttrRoute
   deriving DecidableEq, Repr, Inhabited
 
 """
-    for clsname, (kind, _, _) in ELEMENT_KIND.items():
-        allp = {}
-        for src in ("ModelElement", clsname):      # the element class overrides the base
-            for attr, prop, gf, form, c in routes[src]["props"]:
-                allp[attr] = (attr, prop, gf, form, c)
-        rows = ["{ attr := %s, prop := %s, get := GetForm.%s, form := RouteForm.%s, cls := %s }" % (
-            lean_str(a), lean_str(p), gf, form, lean_str(c)) for a, p, gf, form, c in sorted(allp.values())]
-        body += "def %sRoutes : List AttrRoute :=\n  [%s]\n\n" % (kind, ",\n   ".join(rows))
-    body += "def elemRoutes : List (String × List AttrRoute) :=\n  [%s]\n\n" % ", ".join(
-        "(%s, %sRoutes)" % (lean_str(kind), kind) for kind, _, _ in ELEMENT_KIND.values())
-    body += "/-- the set / unset methods every element class has (`set_property(p, None)` is `unset_property(p)`; pinned idioms) -/\n"
-    body += "def routeMethods : List String := %s\n\n" % lean_list([lean_str(m) for m in sorted(ROUTE_METHODS)])
+    names = []
+    for c in classes:
+        rows = ["{ attr := %s, prop := %s, get := GetForm.%s, onValue := OnValue.%s, onNone := OnNone.%s, cls := %s, partner := %s, cacheAfterWrite := %s }" % (
+            lean_str(r["attr"]), lean_str(r["prop"]), r["get"], r["onValue"], r["onNone"], lean_str(r["cls"]), lean_str(r["partner"]),
+            "true" if r["cacheAfterWrite"] else "false") for r in c["routes"]]
+        nm = "elem" + c["name"]
+        body += "def %s : ElemClass :=\n  { name := %s, kind := %s, setNoneUnsets := %s,\n    routes := [\n      %s] }\n\n" % (
+            nm, lean_str(c["name"]), lean_str(c["kind"]), "true" if c["setNoneUnsets"] else "false", ",\n      ".join(rows))
+        names.append(nm)
+    body += "def elemClasses : List ElemClass := %s\n\n" % lean_list(names)
     return body
 
 
@@ -691,9 +837,10 @@ structure KindTable where
          for en, e in list(enums.items()) + [(e.__name__, e) for e in type_enums.values()]])
     body += "/-- `NO_UNSET_PROPERTIES` -/\ndef noUnset : List String := %s\n\n" % lean_list([lean_str(s) for s in no_unset])
     body += "def nodeIdProp : String := %s\n\n" % lean_str(consts["NODE_ID"])
-    routes = element_routes()
-    body += routes_lean(routes)
-    report["routes"] = {c: len(v["props"]) for c, v in routes.items()}
+    classes = element_routes()
+    body += routes_lean(classes)
+    report["routes"] = {c["name"]: {"kind": c["kind"], "attrs": len(c["routes"]), "settable": sum(1 for r in c["routes"] if r["onValue"] != "none"),
+                                     "views": c["views"], "setNoneUnsets": c["setNoneUnsets"]} for c in classes}
 
     # structural idioms that the hand-written model mirrors: pin their text
     pins = {}
